@@ -370,6 +370,12 @@ func runC08(s *kernel.Sim, enumerate bool) {
 		class = strings.TrimPrefix(class, "fresh+")
 		s.Knobs["fresh_gateway"] = true
 	}
+	// one sampled run in six: one configuration file is larger than a megabyte
+	// (a flow file followed by 1.3 MB of comment lines)
+	if !enumerate && len(old) > 0 && tp.Chance(1, 6) {
+		old["flows/f1.yaml"] += strings.Repeat("# "+strings.Repeat("padding ", 15)+"\n", 11000)
+		s.Knobs["large_file"] = true
+	}
 	// history: in a quarter of the sampled runs an accepted /apply_flows that removed
 	// a flow file precedes the judged update on the same gateway; "before" is then
 	// the configuration that update left
